@@ -226,6 +226,9 @@ func vwMkHeader(simple bool) *vwHdr {
 // (a1) header verifiers: accept => header MAC, manufacturer key hash and device
 // certificate hash are the authentic ones.
 func VerifC04_HeaderAcceptSpec() {
+	verif.Expect("header accepted")
+	verif.Expect("mfg key accepted")
+	verif.Expect("cert hash accepted")
 	verif.Bound("C04a header", "manufacturer key kind in {P-256, P-384} (+RSA-2048 thorough), X509 encoding; device info 0..2 bytes; device certificate chain absent / 1 certificate with hash alg in {SHA-256, SHA-384}; header MAC alg in {HMAC-SHA256, HMAC-SHA384, other}; credential key-hash alg in {SHA-256, SHA-384}; all values symbolic")
 	h := vwMkHeader(false)
 	v := &h.v
@@ -271,6 +274,8 @@ func VerifC04_HeaderAcceptSpec() {
 // owner over its protected header and payload, and carries the right header and
 // previous hashes; the reported owner is the last extension's key.
 func VerifC04_EntriesAcceptSpec() {
+	verif.Expect("accepted")
+	verif.Expect("rejected")
 	verif.Bound("C04a entries", "manufacturer key kind in {P-256, P-384}; 0..1 (quick) / 0..2 (thorough) entries with P-256/P-384 next owners; per entry: signature alg in {ES256, ES384, RS256, PS256, unregistered}, previous-hash and header-hash alg ids in {SHA-256, SHA-384, HMAC-SHA256, 0}; all values symbolic")
 	h := vwMkHeader(true)
 	v := &h.v
